@@ -1,4 +1,5 @@
 import RsslVerif.Lemmas.GenMslArgs
+import RsslVerif.Lemmas.GenMslRem
 /-! Metal exporter, expressions: the main induction. -/
 namespace RsslVerif.Lemmas.GenMsl
 open RsslVerif.Gen.HlslGenTables RsslVerif.Gen.MslGenTables RsslVerif.Model RsslVerif.Model.GenMsl RsslVerif.Spec.Sem
@@ -154,6 +155,10 @@ theorem sim_exprM {W : World} {M : Msl.MWorld} {env : Ast.Env} {cx : Ctx} {vis :
         -- `%` has two operands
         have := (op_floatCallM hf).1
         simp [Ir.typeOf, this] at ht
+      | floatAssign s err outer inner b =>
+        -- `%=` has two operands
+        have := (op_floatAssignM hf).1
+        simp [Ir.typeOf, this] at ht
       | unary u =>
         cases hgx : genExpr cx x with
         | error e => simp [genExpr, hf, hgx] at hg
@@ -184,6 +189,7 @@ theorem sim_exprM {W : World} {M : Msl.MWorld} {env : Ast.Env} {cx : Ctx} {vis :
               simp [genExpr, hf, genBinary, hgx, hgy] at hg; subst hg
               exact sim_binM hag hw.prim rfl rfl rfl (op_binaryM hf) hgx (sim_exprM hag hw x x' tx hgx htx hokxy.1) htx
                 (sim_exprM hag hw y y' ty hgy hty hokxy.2) hty ht hok
+                (fun h => by cases o <;> simp [mslOpForm] at hf <;> simp [irOpSem] at h)
         | floatCall n s b =>
           obtain ⟨hsem, hbs, hname, rfl⟩ := op_floatCallM hf
           -- the operands have one arithmetic type
@@ -228,7 +234,47 @@ theorem sim_exprM {W : World} {M : Msl.MWorld} {env : Ast.Env} {cx : Ctx} {vis :
                       simp only [hw.prim]
                       cases h3 : binop W.P .mod va vb <;> simp [h2, h3, mVal, Ir.isMin]
               · simp [genExpr, hf, hty', hin, hfl, genBinary, hgx, hgy] at hg; subst hg
-                exact sim_binM hag hw.prim rfl rfl rfl (hbs.trans hsem.symm) hgx hxs htx hys hty ht hok
+                exact sim_binM hag hw.prim rfl rfl rfl (hbs.trans hsem.symm) hgx hxs htx hys hty ht hok (fun _ => hfl)
+        | floatAssign s err outer inner b =>
+          obtain ⟨hsem, hbs, rfl, rfl, rfl, rfl⟩ := op_floatAssignM hf
+          have hok' := hok
+          simp only [Ir.okM, Bool.and_eq_true, Bool.not_eq_true', Bool.or_eq_true, decide_eq_true_eq, side, htx, hsem] at hok'
+          obtain ⟨⟨⟨⟨_, _⟩, hminx⟩, hminy⟩, harith⟩ := hok'
+          have harith' : Ir.arithTy (some tx) = true := by simpa [Ir.isShiftM] using harith
+          have hty' := exprTy_ok (W := W) (cx := cx) hw.ret x tx htx
+          have hin := scalarIn_float3 harith'
+          have hfm : mslOpForm .Modulus = .floatCall "fmod" ["Float16", "Float32", "Float64", "FloatLiteral"] .Modulus := rfl
+          have has : mslOpForm .Assignment = .binary .Assignment := rfl
+          by_cases hfl : tx = .float
+          · -- floating-point `%=`: `x = metal::fmod(x, y)`, the target a plain place, the right operand free of writes
+            subst hfl
+            have hin4 : scalarIn ["Float16", "Float32", "Float64", "FloatLiteral"] Ty.float = true := by decide
+            cases hpo : (plainPlace x && freeOfWrites y) with
+            | false => simp [genExpr, hf, exprTyHead, hty', hin, remOperandsOK, hpo] at hg
+            | true =>
+              rw [Bool.and_eq_true] at hpo
+              cases hgx : genExpr cx x with
+              | error e => simp [genExpr, hf, exprTyHead, hty', hin, remOperandsOK, hpo, has, genHead, hgx] at hg
+              | ok x' =>
+                cases hgy : genExpr cx y with
+                | error e => simp [genExpr, hf, exprTyHead, hty', hin, remOperandsOK, hpo, has, genHead, hgx, hfm, hin4, genArgs, hgy] at hg
+                | ok y' =>
+                  simp [genExpr, hf, exprTyHead, hty', hin, remOperandsOK, hpo, has, genHead, hgx, hfm, hin4, genArgs, hgy] at hg
+                  subst hg
+                  have hys := sim_exprM hag hw y y' ty hgy hty hokxy.2
+                  exact sim_remAssignM hag hw.prim rfl rfl rfl hsem (by decide) hgx htx hys hty
+                    (fun σ v σ' h => pure_eval W y σ v σ' (freeOfWrites_pure y hpo.2) h) ht hok
+          · -- integers: the binary form `x %= y`
+            simp only [genExpr, hf, exprTyHead, hty', hin, hfl, decide_false, Bool.false_eq_true, if_false] at hg
+            cases hgx : genExpr cx x with
+            | error e => simp [genBinary, hgx] at hg
+            | ok x' =>
+              cases hgy : genExpr cx y with
+              | error e => simp [genBinary, hgx, hgy] at hg
+              | ok y' =>
+                simp [genBinary, hgx, hgy] at hg; subst hg
+                exact sim_binM hag hw.prim rfl rfl rfl (hbs.trans hsem.symm) hgx (sim_exprM hag hw x x' tx hgx htx hokxy.1) htx
+                  (sim_exprM hag hw y y' ty hgy hty hokxy.2) hty ht hok (fun _ => hfl)
   | .op o (.cons x (.cons y (.cons z r))), a, t, hg, ht, _ => by simp [Ir.typeOf] at ht
 theorem sim_seqM {W : World} {M : Msl.MWorld} {env : Ast.Env} {cx : Ctx} {vis : Var → Bool} {rsv : Nat → List Var}
     (hag : AgreeM cx vis env) (hw : Worlds cx rsv W M) :
